@@ -4,13 +4,15 @@ Case input (tree): [classes, rels, ops]
   classes : list of parent class index (-1 = base class; >= 0 = joined-table subclass of that class)
   rels    : [0, a, b, flags]  class a holds a foreign key to class b; flags bit0 many-to-one attribute on a,
                               bit1 one-to-many collection on b, bit2 post_update, bit3 NOT NULL,
-                              bit4 cascade="all" on the collection
+                              bit4 cascade="all" on the collection, bit5 passive_deletes=True on the collection
             [1, a, b, flags]  many-to-many through a secondary table; bit0 attribute on a, bit1 attribute on b
   ops     : [0, cls] new object (explicit primary key) added to the session
             [1, rel, holder, target|-1]  holder.<m2o> = target   (collection append/remove when no m2o attribute)
             [2, rel, target, holder] target.<o2m>.append(holder)   [3, ...] remove
             [4, rel, x, y] many-to-many append   [5, rel, x, y] remove
             [6, obj] session.delete   [7] flush   [8] commit   [9] expire_all
+            [10, rel, holder, target] raw SQL: the holder's fk column is set to the target's key (a row written by
+            another program; a no-op when the ORM has already written it)
   the LAST flush (implicit, after the ops) is the observed one.
 """
 import itertools
@@ -52,7 +54,7 @@ TRUSTED = [
 ]
 ASSUMPTIONS = [
     "foreign key values are changed only through relationships (no direct assignment of fk columns), "
-    "primary keys are not changed (no _DetectKeySwitch / listonly states), no passive_deletes, no "
+    "primary keys are not changed (no _DetectKeySwitch / listonly states), no "
     "delete-orphan on many-to-one",
     "the hypotheses wf/consistent/managed of the theorems (decidable; evaluated on every case; they are "
     "expected to hold - and are checked to hold - on every case of the in-guard families)",
@@ -224,8 +226,8 @@ def runner_for_run(bdir):
 
 
 # ---------------------------------------------------------------- schema families
-def _fk(a, b, m2o=1, o2m=1, post=0, nn=0, casc=0):
-    return [0, a, b, m2o | o2m << 1 | post << 2 | nn << 3 | casc << 4]
+def _fk(a, b, m2o=1, o2m=1, post=0, nn=0, casc=0, passive=0):
+    return [0, a, b, m2o | o2m << 1 | post << 2 | nn << 3 | casc << 4 | passive << 5]
 
 
 def _mm(a, b, fwd=1, bwd=1):
@@ -257,6 +259,11 @@ FAMILIES = {
     "child-of-tree": ([-1, -1], [_fk(0, 0), _fk(1, 0)]),
     "inherit": ([-1, 0, -1], [_fk(0, 2), _fk(2, 1, o2m=0, post=1)]),
     "inherit-sub-fk": ([-1, 0, 0], [_fk(1, 2), _fk(2, 0, o2m=0)]),
+    # a post_update many-to-one declared on a base class, flushed for instances of a joined subclass
+    "inherit-post": ([-1, 0, -1], [_fk(0, 2, o2m=0, post=1), _fk(2, 0, nn=1, casc=1)]),
+    # passive_deletes on a collection whose members are instances of a joined subclass
+    "passive-sub": ([-1, -1, 1], [_fk(1, 0, m2o=0, passive=1)]),
+    "passive": ([-1, -1], [_fk(1, 0, passive=1)]),
 }
 # families all of whose cases are expected to satisfy the hypotheses of the guarded theorem
 IN_GUARD = {"o2m", "chain3", "tree", "tree-cascade", "m2m", "m2m-self", "m2m+tree", "mutual-backref", "parent-of-tree", "child-of-tree"}
@@ -356,17 +363,41 @@ def _small_scope(classes, rels, quick):
     return out
 
 
+EXTRA = {
+    # person(sub) <-> ball cycle: insert both with favorite set, commit, delete both
+    "inherit-post": [
+        [[0, 1], [0, 2], [1, 0, 0, 1], [1, 1, 1, 0], [8], [6, 0], [6, 1]],
+        [[0, 1], [0, 2], [1, 0, 0, 1], [1, 1, 1, 0], [8], [10, 0, 0, 1], [6, 0], [6, 1]],
+        [[0, 0], [0, 2], [1, 0, 0, 1], [1, 1, 1, 0], [8], [10, 0, 0, 1], [6, 0], [6, 1]],
+        [[0, 1], [0, 2], [1, 0, 0, 1], [1, 1, 1, 0]],
+        [[0, 1], [0, 2], [1, 0, 0, 1], [1, 1, 1, 0], [8], [9], [6, 0]],
+        [[0, 0], [0, 2], [1, 0, 0, 1], [1, 1, 1, 0], [8], [6, 0], [6, 1]],
+    ],
+    "passive-sub": [
+        [[0, 0], [0, 2], [0, 2], [2, 0, 0, 1], [2, 0, 0, 2], [8], [9], [6, 0], [6, 1], [6, 2]],
+        [[0, 0], [0, 1], [0, 1], [2, 0, 0, 1], [2, 0, 0, 2], [8], [9], [6, 0], [6, 1], [6, 2]],
+        [[0, 0], [0, 2], [2, 0, 0, 1], [8], [9], [6, 1], [6, 0]],
+    ],
+    "passive": [
+        [[0, 0], [0, 1], [0, 1], [2, 0, 0, 1], [2, 0, 0, 2], [8], [9], [6, 0], [6, 1], [6, 2]],
+    ],
+}
+
+
 def _directed(classes, rels):
     """one script per ordering need and API form: every relationship x {insert both, unlink + delete the
     target, delete both, re-point + delete the old target, delete the target only, delete the holder only}"""
 
-    def inst(cls):
-        # a concrete class that is cls or a subclass
-        return cls
+    def concrete(cls):
+        # cls and its joined subclasses
+        return [k for k in range(len(classes)) if _sub(classes, k, cls)]
 
     out = []
     for i, (kind, a, b, fl) in enumerate(rels):
-        base = [[0, inst(a)], [0, inst(b)], [0, inst(b)]]  # x = 0 (holder / left), y = 1, y2 = 2
+      for ca in concrete(a):
+       for cb in concrete(b):
+        inst = lambda c: ca if c == a else cb
+        base = [[0, ca], [0, cb], [0, cb]]  # x = 0 (holder / left), y = 1, y2 = 2
         if kind == 0:
             for link in ([1, i, 0, 1], [2, i, 1, 0]):
                 unlink = [1, i, 0, -1] if link[0] == 1 else [3, i, 1, 0]
@@ -398,8 +429,11 @@ def gen_cases(rng, tier):
         for ops in ss:
             cases.append({"in": [classes, rels, ops], "kind": "small:" + name, "fam": name})
         dd = _directed(classes, rels)
+        extra = EXTRA.get(name, [])
         if tier not in ("search", "thorough") and len(dd) > 10:
             dd = rng.sample(dd, 10)
+        for ops in extra:
+            cases.append({"in": [classes, rels, ops], "kind": "directed:" + name, "fam": name})
         for ops in dd:
             cases.append({"in": [classes, rels, ops], "kind": "directed:" + name, "fam": name})
         for _ in range(6 if quick else 500):
@@ -475,7 +509,7 @@ def _build(classes, rels):
                 setattr(cl[b], "c%d" % i, relationship(
                     cl[a], foreign_keys=[tab(a).c["f%d" % i]], remote_side=[tab(a).c["f%d" % i]], post_update=post,
                     primaryjoin=tab(a).c["f%d" % i] == tab(b).c.id,
-                    cascade="all" if fl >> 4 & 1 else "save-update, merge",
+                    cascade="all" if fl >> 4 & 1 else "save-update, merge", passive_deletes=bool(fl >> 5 & 1),
                     back_populates=("r%d" % i) if fl & 1 else None))
         else:
             t = Table("s%d" % i, Base.metadata,
@@ -610,6 +644,14 @@ def impl(c):
                     sess.delete(o)
                 elif st.pending:
                     sess.expunge(o)
+        elif t == 10:
+            # the row as another program would have written it: UPDATE <holder table> SET fk = target
+            i = op[1]
+            kind, a, b, fl = rels[i]
+            if kind == 0 and op[2] < len(objs) and op[3] < len(objs):
+                ho, to = objs[op[2]], objs[op[3]]
+                if isinstance(ho, cl[a]) and isinstance(to, cl[b]) and inspect(ho).persistent and inspect(to).persistent:
+                    sess.connection().exec_driver_sql("update t%d set f%d=%d where id=%d" % (a, i, to.id, ho.id))
         elif t == 7:
             sess.flush()
         elif t == 8:
@@ -626,6 +668,12 @@ def impl(c):
         eng.dispose()
         _last["skip"] = True
         return [9, type(e).__name__[:40]]
+
+    def coll_of(par, i):
+        """members of par.c<i> WITHOUT loading an unloaded collection (the flush must see it unloaded)"""
+        if ("c%d" % i) in inspect(par).dict:
+            return list(getattr(par, "c%d" % i))
+        return [x for x in objs if x in sess and isinstance(x, cl[rels[i][1]]) and getattr(x, "f%d" % i) == par.id]
 
     # ---- intended final state read from the in-memory graph (for the oracle only)
     deleted = set(id(o) for o in sess.deleted)
@@ -650,7 +698,9 @@ def impl(c):
                     if fl & 1:
                         t = getattr(o, "r%d" % i)
                     else:
-                        ps = [p for p in insess if isinstance(p, cl[b]) and o in getattr(p, "c%d" % i)]
+                        ps = [p for p in insess if isinstance(p, cl[b]) and o in coll_of(p, i)]
+                        if fl >> 5 & 1 and any(("c%d" % i) not in inspect(p).dict for p in ps):
+                            consistent = False  # passive_deletes: the unloaded members keep their key
                         if len(ps) > 1:
                             consistent = False
                         t = ps[0] if ps else None
@@ -688,7 +738,7 @@ def impl(c):
                     if t is not None:
                         memlinks.setdefault(id(o), set()).add(id(t))
                 if fl & 2 and isinstance(o, cl[b]):
-                    for ch in getattr(o, "c%d" % i):
+                    for ch in coll_of(o, i):
                         memlinks.setdefault(id(ch), set()).add(id(o))
         # a cycle of references over columns that are not post_update
         seen = {}
@@ -957,7 +1007,8 @@ def impl(c):
     except Exception as e:
         _last["stale_err"] = repr(e)
     _last.update(err=err, consistent=consistent, rowcycle=rowcycle, unsupported=unsupported, trace=trace,
-                 stale_cycle=stale_cycle, items=items, ref0=ref0, snap=snap, rels=rels, classes=classes)
+                 stale_cycle=stale_cycle, items=items, ref0=ref0, snap=snap, rels=rels, classes=classes,
+                 objcls=[cl.index(type(o)) for o in objs])
     if "sts" not in snap:
         # nothing to flush: _generate_actions never ran
         return [8]
@@ -1037,7 +1088,9 @@ def _classify(err):
         if tt != t or r == t:
             continue
         fl = rels[cc][3]
-        if fl >> 2 & 1:
+        if fl >> 5 & 1 and role.get(r) == 2 and _last["objcls"][r] != rels[cc][1]:
+            tags.add(" [passive-deletes-subclass]")
+        elif fl >> 2 & 1:
             if fl & 2 and role.get(r) == 1:
                 tags.add(" [post-o2m-delete-parent]")
             else:
@@ -1055,6 +1108,7 @@ def match_finding(c, what):
         ("[post-o2m-keyerror]", "C31-post-update-o2m-keyerror"),
         ("[post-o2m-delete-parent]", "C31-post-update-o2m-delete-parent"),
         ("[m2o-unset-delete-cycle]", "C31-m2o-unset-delete-across-cycle"),
+        ("[passive-deletes-subclass]", "C31-passive-deletes-subclass-members"),
     ):
         if what.endswith(tag):
             return fid
